@@ -116,7 +116,7 @@ Proof.
 Qed.
 
 (* AnyhowResult<SpannedExpr>: an Err carries no expression *)
-Definition vres (t : tres) : Prop := match t with Some e => valid_exprb e = true | None => True end.
+Definition vtres (t : tres) : Prop := match t with Some e => valid_exprb e = true | None => True end.
 Definition vlres {A} (f : A -> bool) (t : option A) : Prop := match t with Some l => f l = true | None => True end.
 
 Lemma obind_Ok {A B} (x : outcome A) (f : A -> outcome B) v :
@@ -126,7 +126,7 @@ Proof. destruct x; cbn; intro H; try discriminate H. eexists; split; [reflexivit
 (* ------------------------------------------------------------------ the element loops *)
 Section Loops.
   Variable parse : list item -> outcome tres.
-  Hypothesis parse_ok : forall its r, valid_itemsb its = true -> parse its = Ok r -> vres r.
+  Hypothesis parse_ok : forall its r, valid_itemsb its = true -> parse its = Ok r -> vtres r.
 
   Lemma list_loop_valid : forall els r, valid_lelsb els = true -> list_loop parse els = Ok r -> vlres vcexprsb r.
   Proof.
@@ -163,7 +163,7 @@ Section Loops.
       destruct val as [val'|]; [|injection H as <-; exact I].
       apply obind_Ok in H as [rr [Hr H]]. injection H as <-.
       specialize (IH _ Vr Hr). destruct rr as [rr|]; [|exact I].
-      cbn [option_map vlres uncommented vrentriesb vres] in *. rewrite Vval, IH.
+      cbn [option_map vlres uncommented vrentriesb vtres] in *. rewrite Vval, IH.
       destruct key'; try reflexivity; rewrite Vkey; reflexivity.
     - apply obind_Ok in H as [rr [Hr H]]. injection H as <-.
       specialize (IH _ V Hr). destruct rr as [rr|]; [|exact I].
@@ -173,20 +173,20 @@ Section Loops.
       destruct e as [e'|]; [|injection H as <-; exact I].
       apply obind_Ok in H as [rr [Hr H]]. injection H as <-.
       specialize (IH _ Vr Hr). destruct rr as [rr|]; [|exact I].
-      cbn [option_map vlres uncommented vrentriesb valid_exprb vres] in *. rewrite Ve, IH. reflexivity.
+      cbn [option_map vlres uncommented vrentriesb valid_exprb vtres] in *. rewrite Ve, IH. reflexivity.
   Qed.
 
   Lemma do_loop_valid : forall els stmts ret r, valid_delsb els = true ->
     vcexprsb stmts = true -> valid_exprb (cnode ret) = true ->
-    do_loop parse els stmts ret = Ok r -> vres r.
+    do_loop parse els stmts ret = Ok r -> vtres r.
   Proof.
     induction els as [|[g c|s c|g|s] els IH]; intros stmts ret r V Vs Vret H; cbn [do_loop valid_delsb] in *.
-    - injection H as <-. destruct ret as [ld a tr]. cbn [vres cnode] in *. rewrite vE_EDo, Vs, Vret. reflexivity.
+    - injection H as <-. destruct ret as [ld a tr]. cbn [vtres cnode] in *. rewrite vE_EDo, Vs, Vret. reflexivity.
     - apply andb_true_iff in V as [Vg Vr].
       apply obind_Ok in H as [e [He H]]. pose proof (parse_ok _ _ Vg He) as Ve.
       destruct e as [e'|]; [|injection H as <-; exact I].
       eapply IH; [exact Vr| |exact Vret|exact H].
-      rewrite vcexprsb_app, Vs. cbn [uncommented vcexprsb vres] in *. rewrite Ve. reflexivity.
+      rewrite vcexprsb_app, Vs. cbn [uncommented vcexprsb vtres] in *. rewrite Ve. reflexivity.
     - eapply IH; eassumption.
     - apply andb_true_iff in V as [Vg Vr].
       apply obind_Ok in H as [e [He H]]. pose proof (parse_ok _ _ Vg He) as Ve.
@@ -204,7 +204,7 @@ Section Loops.
       destruct e as [e'|]; [|injection H as <-; exact I].
       apply obind_Ok in H as [rr [Hr H]]. injection H as <-.
       specialize (IH _ Vr Hr). destruct rr as [rr|]; [|exact I].
-      cbn [option_map vlres vexprsb vres] in *. rewrite Ve, IH. reflexivity.
+      cbn [option_map vlres vexprsb vtres] in *. rewrite Ve, IH. reflexivity.
   Qed.
 End Loops.
 
@@ -219,28 +219,28 @@ Section Parser.
   Notation primary' := (primary tbl imap pmap).
   Notation parse_items' := (parse_items tbl imap pmap).
 
-  Lemma map_prefix_valid : forall r rhs e, vres rhs -> map_prefix pmap r rhs = Ok e -> vres e.
+  Lemma map_prefix_valid : forall r rhs e, vtres rhs -> map_prefix pmap r rhs = Ok e -> vtres e.
   Proof.
     intros r rhs e V H. unfold map_prefix in H. destruct (assoc_find r pmap) as [[u|]|]; try discriminate H;
-      injection H as <-; destruct rhs; cbn [option_map vres valid_exprb] in *; auto.
+      injection H as <-; destruct rhs; cbn [option_map vtres valid_exprb] in *; auto.
   Qed.
-  Lemma map_infix_valid : forall lhs r rhs e, vres lhs -> vres rhs -> map_infix imap lhs r rhs = Ok e -> vres e.
+  Lemma map_infix_valid : forall lhs r rhs e, vtres lhs -> vtres rhs -> map_infix imap lhs r rhs = Ok e -> vtres e.
   Proof.
     intros lhs r rhs e Vl Vr H. unfold map_infix in H. destruct (assoc_find r imap); [|discriminate H].
-    injection H as <-. destruct lhs, rhs; cbn [vres valid_exprb] in *; auto. rewrite Vl, Vr. reflexivity.
+    injection H as <-. destruct lhs, rhs; cbn [vtres valid_exprb] in *; auto. rewrite Vl, Vr. reflexivity.
   Qed.
 
   Definition P_pexpr (fuel : nat) : Prop := forall rbp its r,
-    valid_itemsb its = true -> pexpr' fuel rbp its = Ok r -> vres (fst r) /\ valid_itemsb (snd r) = true.
+    valid_itemsb its = true -> pexpr' fuel rbp its = Ok r -> vtres (fst r) /\ valid_itemsb (snd r) = true.
   Definition P_ploop (fuel : nat) : Prop := forall rbp lhs its r,
-    vres lhs -> valid_itemsb its = true -> ploop' fuel rbp lhs its = Ok r ->
-    vres (fst r) /\ valid_itemsb (snd r) = true.
+    vtres lhs -> valid_itemsb its = true -> ploop' fuel rbp lhs its = Ok r ->
+    vtres (fst r) /\ valid_itemsb (snd r) = true.
   Definition P_post (fuel : nat) : Prop := forall lhs pr0 r,
-    vres lhs -> valid_itemb pr0 = true -> map_postfix' fuel lhs pr0 = Ok r -> vres r.
+    vtres lhs -> valid_itemb pr0 = true -> map_postfix' fuel lhs pr0 = Ok r -> vtres r.
   Definition P_prim (fuel : nat) : Prop := forall pr0 r,
-    valid_itemb pr0 = true -> primary' fuel pr0 = Ok r -> vres r.
+    valid_itemb pr0 = true -> primary' fuel pr0 = Ok r -> vtres r.
   Definition P_items (fuel : nat) : Prop := forall its r,
-    valid_itemsb its = true -> parse_items' fuel its = Ok r -> vres r.
+    valid_itemsb its = true -> parse_items' fuel its = Ok r -> vtres r.
 
   Lemma pratt_all_valid : forall fuel, P_pexpr fuel /\ P_ploop fuel /\ P_post fuel /\ P_prim fuel /\ P_items fuel.
   Proof.
@@ -251,7 +251,7 @@ Section Parser.
       intros rbp its r V H. cbn [pexpr] in H. destruct its as [|pr0 rest]; [discriminate H|].
       cbn [valid_itemsb] in V. apply andb_true_iff in V as [V0 Vrest].
       apply obind_Ok in H as [lr [Hlr H]].
-      assert (Vlr : vres (fst lr) /\ valid_itemsb (snd lr) = true).
+      assert (Vlr : vtres (fst lr) /\ valid_itemsb (snd lr) = true).
       { destruct (item_op pr0) as [r0|].
         - destruct (ops_get tbl r0) as [[[| |a] p]|]; try discriminate Hlr.
           apply obind_Ok in Hlr as [rr [Hrr Hlr]]. apply obind_Ok in Hlr as [e [He Hlr]]. injection Hlr as <-.
@@ -275,13 +275,13 @@ Section Parser.
     - (* map_postfix *)
       intros lhs pr0 r Vl V H. cbn [map_postfix] in H.
       destruct pr0; try discriminate H.
-      + destruct r0; try discriminate H. injection H as <-. destruct lhs; cbn [option_map vres valid_exprb] in *; auto.
+      + destruct r0; try discriminate H. injection H as <-. destruct lhs; cbn [option_map vtres valid_exprb] in *; auto.
       + rewrite vI_IAccess in V. apply obind_Ok in H as [i [Hi H]]. injection H as <-.
-        pose proof (IHit _ _ V Hi) as Vi. destruct i, lhs; cbn [vres valid_exprb] in *; auto.
+        pose proof (IHit _ _ V Hi) as Vi. destruct i, lhs; cbn [vtres valid_exprb] in *; auto.
         rewrite Vl, Vi. reflexivity.
-      + injection H as <-. destruct lhs; cbn [option_map vres valid_exprb] in *; auto.
+      + injection H as <-. destruct lhs; cbn [option_map vtres valid_exprb] in *; auto.
       + rewrite vI_ICall in V. apply obind_Ok in H as [a [Ha H]]. injection H as <-.
-        pose proof (omapM_valid _ IHit _ _ V Ha) as Va. destruct a, lhs; cbn [vres vlres] in *; auto.
+        pose proof (omapM_valid _ IHit _ _ V Ha) as Va. destruct a, lhs; cbn [vtres vlres] in *; auto.
         rewrite vE_ECall, Vl, Va. reflexivity.
     - (* primary *)
       intros pr0 r V H. cbn [primary] in H.
@@ -291,25 +291,25 @@ Section Parser.
       + injection H as <-. reflexivity.
       + injection H as <-. reflexivity.
       + injection H as <-. reflexivity.
-      + injection H as <-. cbn [vres]. destruct (builtin_of_name s); reflexivity.
+      + injection H as <-. cbn [vtres]. destruct (builtin_of_name s); reflexivity.
       + injection H as <-. reflexivity.
       + rewrite vI_IExpr in V. eapply IHit; eassumption.
       + rewrite vI_IList in V. apply obind_Ok in H as [rr [Hr H]]. injection H as <-.
-        pose proof (list_loop_valid _ IHit _ _ V Hr) as Vr. destruct rr; cbn [option_map vres vlres] in *; auto.
+        pose proof (list_loop_valid _ IHit _ _ V Hr) as Vr. destruct rr; cbn [option_map vtres vlres] in *; auto.
       + rewrite vI_IRecord in V. apply obind_Ok in H as [rr [Hr H]]. injection H as <-.
-        pose proof (rec_loop_valid _ IHit _ _ V Hr) as Vr. destruct rr; cbn [option_map vres vlres] in *; auto.
+        pose proof (rec_loop_valid _ IHit _ _ V Hr) as Vr. destruct rr; cbn [option_map vtres vlres] in *; auto.
       + rewrite vI_ILambda in V. apply obind_Ok in H as [b [Hb H]]. injection H as <-.
-        pose proof (IHit _ _ V Hb) as Vb. destruct b; cbn [option_map vres valid_exprb] in *; auto.
+        pose proof (IHit _ _ V Hb) as Vb. destruct b; cbn [option_map vtres valid_exprb] in *; auto.
       + rewrite vI_ICond in V. apply andb_true_iff in V as [V Ve]. apply andb_true_iff in V as [Vc Vt].
         apply obind_Ok in H as [c' [Hc H]]. pose proof (IHit _ _ Vc Hc) as Vc'.
         destruct c' as [c''|]; [|injection H as <-; exact I].
         apply obind_Ok in H as [t' [Ht H]]. pose proof (IHit _ _ Vt Ht) as Vt'.
         destruct t' as [t''|]; [|injection H as <-; exact I].
         apply obind_Ok in H as [e' [He H]]. pose proof (IHit _ _ Ve He) as Ve'. injection H as <-.
-        destruct e'; cbn [option_map vres valid_exprb] in *; auto. rewrite Vc', Vt', Ve'. reflexivity.
+        destruct e'; cbn [option_map vtres valid_exprb] in *; auto. rewrite Vc', Vt', Ve'. reflexivity.
       + rewrite vI_IDo in V. eapply (do_loop_valid _ IHit); [exact V| | |exact H]; reflexivity.
       + rewrite vI_IAssign in V. apply obind_Ok in H as [v' [Hv H]]. injection H as <-.
-        pose proof (IHit _ _ V Hv) as Vv. destruct v'; cbn [option_map vres valid_exprb] in *; auto.
+        pose proof (IHit _ _ V Hv) as Vv. destruct v'; cbn [option_map vtres valid_exprb] in *; auto.
     - (* parse_items *)
       intros its r V H. cbn [parse_items] in H. apply obind_Ok in H as [rr [Hrr H]]. injection H as <-.
       apply (IHe _ _ _ V Hrr).
